@@ -187,7 +187,10 @@ func (c *client) Execute(
 		StepID: stepData.ID,
 		Config: stepData.InputData,
 	}
-	cborReader := c.decMode.NewDecoder(c.rawAtpChannels)
+	// All reads must go through the one decoder of this connection: a CBOR decoder reads ahead, so a decoder
+	// created per call would silently drop whatever an earlier decoder had already buffered (for example a non-fatal
+	// error message that arrived together with the previous step's result).
+	cborReader := c.decoder
 	if c.atpVersion > 1 {
 		// Wrap it in a runtime message.
 		workStartMsg = RuntimeMessage{RunID: stepData.RunID, MessageID: MessageTypeWorkStart, MessageData: workStartMsg}
